@@ -348,9 +348,12 @@ pub fn logical_for(ctx: &crate::obs::Ctx, label: &str, i: u64) -> Logical {
 /// `sample`: bytes of a valid archive (cut and damaged copies of it are opened), if there is one at hand.
 pub fn failing_calls_before(rng: &mut crate::rng::Rng, sample: Option<&[u8]>) {
     use crate::obs::guard;
+    // codec-free under Miri
+    let codec_free = crate::hostile::NO_ZSTD.load(std::sync::atomic::Ordering::Relaxed);
+    let pick_codec = |rng: &mut crate::rng::Rng, lo: usize| if codec_free { pmtiles2::Compression::None } else { crate::gen::comp(R::CODECS[rng.usize(lo, 3)]) };
     // 1. writes that fail part-way: into a stream that starts failing after a few operations, and into a too-small slice
     let mut pm = PMTiles::new(pmtiles2::TileType::Png, pmtiles2::Compression::None);
-    pm.internal_compression = crate::gen::comp(R::CODECS[rng.usize(0, 3)]);
+    pm.internal_compression = pick_codec(rng, 0);
     for k in 0..40u64 {
         let _ = pm.add_tile(1000 + k * 3, vec![(k % 251) as u8 + 1; 5 + (k % 7) as usize]);
     }
@@ -368,12 +371,12 @@ pub fn failing_calls_before(rng: &mut crate::rng::Rng, sample: Option<&[u8]>) {
     let mut small = [0u8; 160];
     let _ = guard(|| pm2.to_writer(&mut std::io::Cursor::new(&mut small[..])));
     let d = pmtiles2::Directory::from(vec![pmtiles2::Entry { tile_id: 1, offset: 0, length: 0, run_length: 1 }]);
-    let _ = guard(|| d.to_writer(&mut Vec::new(), pmtiles2::Compression::GZip));
+    let _ = guard(|| d.to_writer(&mut Vec::new(), if codec_free { pmtiles2::Compression::None } else { pmtiles2::Compression::GZip }));
     // directory writers that fail AFTER something was serialised: a refused entry in the middle of a list, a sink that fails,
     // a sink that is too small (sync and async, directory and directory-tree writer)
     let mut list: Vec<pmtiles2::Entry> = (0..60u64).map(|k| pmtiles2::Entry { tile_id: 7 + k * 2, offset: k * 11, length: 11, run_length: 1 }).collect();
     let good = pmtiles2::Directory::from(list.clone());
-    for comp in [pmtiles2::Compression::None, crate::gen::comp(R::CODECS[rng.usize(1, 3)])] {
+    for comp in [pmtiles2::Compression::None, pick_codec(rng, 1)] {
         let mut failing = Inst::new(Vec::new());
         failing.c.fail_from = Some(0);
         let _ = guard(|| good.to_writer(&mut failing, comp));
@@ -391,7 +394,7 @@ pub fn failing_calls_before(rng: &mut crate::rng::Rng, sample: Option<&[u8]>) {
     list[37].length = 0;
     let bad = pmtiles2::Directory::from(list.clone());
     let _ = guard(|| bad.to_writer(&mut Vec::new(), pmtiles2::Compression::None));
-    let _ = guard(|| block_on(bad.to_async_writer(&mut futures::io::Cursor::new(Vec::new()), pmtiles2::Compression::GZip)));
+    let _ = guard(|| block_on(bad.to_async_writer(&mut futures::io::Cursor::new(Vec::new()), if codec_free { pmtiles2::Compression::None } else { pmtiles2::Compression::GZip })));
     let _ = guard(|| pmtiles2::util::write_directories(&mut std::io::Cursor::new(Vec::new()), &list, pmtiles2::Compression::None, None).map(|v| v.len()));
     // 2. opens and parses that fail: cut / damaged copies of a valid archive
     if let Some(b) = sample {
